@@ -167,16 +167,19 @@ def printers(design, seed=0, nsteps=4):
     return dict(failed=False, observed='ok', expected='ok')
 
 
-def assertions(simname='Simulation', fail_at=3, width=3):
-    """an rtl_assert raises its exception on the first cycle its wire is 0 and not before"""
+def assertions(simname='Simulation', fail_at=3, width=3, exc='custom'):
+    """an rtl_assert raises its exception - whatever its class - on the first cycle its wire is 0
+    and not before"""
     import pyrtl
     pyrtl.reset_working_block()
     en = pyrtl.Input(1, 'en')
     cnt = pyrtl.Register(width, 'cnt')
     cnt.next <<= cnt + 1
 
-    class MyErr(Exception):
+    class Custom(Exception):
         pass
+    MyErr = {'custom': Custom, 'PyrtlError': pyrtl.PyrtlError, 'PyrtlInternalError': pyrtl.PyrtlInternalError,
+             'ValueError': ValueError, 'LookupError': LookupError, 'AttributeError': AttributeError}[exc]
     ok = pyrtl.WireVector(1, 'ok_w')
     ok <<= (cnt != fail_at) | ~en
     pyrtl.rtl_assert(ok, MyErr('boom'))
@@ -239,6 +242,26 @@ def illegal_inputs(simname='Simulation', bw=4):
                                                               if accepted else 'rejected'))
         elif legal and got != val:
             probs.append('value %d simulated as %r' % (val, got))
+    # an illegal value is refused whatever the simulator already holds for that input: equal to the
+    # construction default_value, or equal to the value of the previous step
+    for dv in ((1 << bw) + 1, 1 << bw):
+        if simname == 'CompiledSimulation' and dv >= (1 << 64):
+            continue          # CompiledSimulation stores default_value in a 64-bit C constant
+        pyrtl.reset_working_block()
+        a = pyrtl.Input(bw, 'a')
+        o = pyrtl.Output(bw, 'o')
+        o <<= a
+        try:
+            sim = _mk(simname, pyrtl.working_block(), default_value=dv)
+        except pyrtl.PyrtlError:
+            continue          # refusing the over-wide default at construction is also a refusal
+        try:
+            sim.step({'a': dv})
+            probs.append('value %d accepted for a %d-bit Input when default_value=%d' % (dv, bw, dv))
+        except pyrtl.PyrtlError:
+            pass
+        except Exception as e:
+            probs.append('default_value=%d: %s instead of PyrtlError' % (dv, type(e).__name__))
     return dict(failed=bool(probs), observed=probs, expected=[])
 
 
